@@ -236,6 +236,10 @@ def run_case(case, ctx):
         if case.get("s", 1) % 2 and "guess_atol" in kw:
             b = Atoms.load_lmpdat(io.StringIO(text), kw["atom_format"], kw["guess_atol"])      # by position, documented order
             st.count("files_loaded_with_positional_options")
+        elif case.get("s", 1) % 4 == 2:
+            # the generic entry point, documented to pass its keyword arguments on to the reader
+            b = Atoms.load(io.StringIO(text), filetype="lmpdat", **kw)
+            st.count("files_loaded_through_Atoms_load_with_options")
         else:
             b = Atoms.load_lmpdat(io.StringIO(text), **kw)
     except Exception as e:
@@ -248,6 +252,18 @@ def run_case(case, ctx):
     st.seen("file_mode", "%s/%s/%s" % (case["kind"], mode, "comments" if comments else "nocomments"))
     exps = [expected(m, tol, tab) for m in printed]
     got = list(b.atom_type_elements)
+    # every documented route to the reader with the same options reads the same elements
+    for route in ("Atoms.load(f, filetype='lmpdat', **options)", "Atoms.load_lmpdat(f, **options)"):
+        try:
+            b2 = Atoms.load(io.StringIO(text), filetype="lmpdat", **kw) if route.startswith("Atoms.load(") else Atoms.load_lmpdat(io.StringIO(text), **kw)
+            if list(b2.atom_type_elements) != got:
+                ctx.fail("%s reads the elements %s, another route with the same options (tolerance %g) read %s" % (route, list(b2.atom_type_elements), tol, got),
+                         witness={"masses": printed, "tol": tol, "options": {k: str(v) for k, v in kw.items()}})
+            st.count("file.routes_compared")
+        except Exception as e:
+            if type(e).__name__ == "PostBroken":
+                raise
+            ctx.fail("%s raised %s: %s although another route read the file" % (route, type(e).__name__, str(e)[:120]), witness={"masses": printed, "tol": tol})
     if any(e is None for e in exps):
         st.count("file.fallback_expected")
         want = [str(i + 1) for i in range(n)]
@@ -282,6 +298,8 @@ def run_case(case, ctx):
 
 def requirements(stats, tier):
     need = []
+    if stats.get("files_loaded_through_Atoms_load_with_options") < (8 if tier == "quick" else 500):
+        need.append("files loaded through Atoms.load with reader options: %d" % stats.get("files_loaded_through_Atoms_load_with_options"))
     if stats.get("files_with_masses_in_exponent_notation") < (5 if tier == "quick" else 500):
         need.append("files with masses in exponent notation: %d" % stats.get("files_with_masses_in_exponent_notation"))
     if stats.get("files_with_a_comment_behind_the_section_keywords") < (5 if tier == "quick" else 500):
